@@ -31,7 +31,14 @@ func FullName(o types.Object) string {
 			// a function that renames a reference function goes by the reference name
 			short := strings.ReplaceAll(full, Mod+"/", "")
 			if c := canonFuncName(f, short); c != short {
-				return strings.Replace(full, short[strings.LastIndex(short, ".")+1:], c[strings.LastIndex(c, ".")+1:], 1)
+				// the reference name, with the module path put back
+				switch {
+				case strings.HasPrefix(c, "(*"):
+					return "(*" + Mod + "/" + c[2:]
+				case strings.HasPrefix(c, "("):
+					return "(" + Mod + "/" + c[1:]
+				}
+				return Mod + "/" + c
 			}
 		}
 		return full
